@@ -9,8 +9,10 @@ EXPLANATION = (
     "invariant of PacketBuilderStep<B>) with every serialiser replaced by its length - X::to_bytes() by "
     "X::header_len() (lemma proved by C08 len), Ipv{4,6}Extensions::write_internal by header_len() on Ok (lemma proved "
     "by C12 announce), write_all(slice) by len(slice); on every path that returns Ok the sum of the written lengths "
-    "equals final_size(builder, payload.len()) evaluated on the original builder value; write / write_to_vec / "
-    "write_to_slice all go through this one function.  (e1-panic) every panic-capable terminator of packet_builder:: "
+    "equals final_size(builder, payload.len()) evaluated on the original builder value.  (entry) write, write_to_vec and "
+    "write_to_slice of each final step are interpreted up to their call of final_write_with_net: on every joint path "
+    "they hand it the same builder state (compared field by field) and the same payload, so the three differ only in "
+    "the writer.  (e1-panic) every panic-capable terminator of packet_builder:: "
     "is discharged under the typestate invariants.  NOT decided: that strict parsing accepts the emitted bytes and "
     "recovers the inputs, consistency of ether types / protocol numbers / length fields / checksums with the layers "
     "(the UDP length cast is C14's, error discipline C16's).")
@@ -30,4 +32,8 @@ def check(ctx):
                          lambda fn, kind, desc, s: kind == "panic" and fn.startswith("packet_builder::"))
         recs = rules_size.run(F, inv_from_e1(e1), e1.get("summaries"))
         collect(res, recs, tag)
+        if F.bodies.get("packet_builder::PacketBuilderStep::<transport::udp_header::UdpHeader>::write") is not None:
+            # (write<T: io::Write> only exists with feature std)
+            recs = rules_size.run_entry(F, inv_from_e1(e1), e1.get("summaries"))
+            collect(res, recs, tag)
     return res
